@@ -50,6 +50,10 @@ func (s *State) clone() *State {
 // Unit is the verification of one function (one SMT script).
 type Unit struct {
 	eng      *Engine
+	// sidx0 (contract option `opt sidx0 = true`): wrap slice positions in sidx(off, i) also for the
+	// literal offset 0, so that quantifier instantiation can match positions of a slice whose offset
+	// is only known to be 0 after a merge of branches
+	sidx0 bool
 	// entry-heap closure: keys whose leaves are references, and the entry allocation watermark
 	refKeys map[string]bool
 	alloc0  T
@@ -729,7 +733,7 @@ func (u *Unit) logWrite(key string, sort Sort) {
 // axiom, so that quantifier instantiation can match on it syntactically (the
 // solvers normalise nested sums, which hides off+i from E-matching).
 func (u *Unit) sidx(off, i T) T {
-	if off.S == "0" {
+	if off.S == "0" && !u.sidx0 {
 		return i
 	}
 	if !u.declared["sidx"] {
